@@ -160,7 +160,7 @@ func (vc *FuncVC) resolveInvoke(c *ssa.CallCommon) *ssa.Function {
 
 func (vc *FuncVC) havocAll(st *State, resT types.Type, what string) []outcome {
 	for _, h := range sortedKeys(st.g.heapSort) {
-		if h == "$alive" {
+		if h == "$alive" || h == "$brk" {
 			continue
 		}
 		st.havocHeap(h)
@@ -287,17 +287,13 @@ func (vc *FuncVC) bindResults(vars map[string]SV, con *Contract, fn *ssa.Functio
 	case 1:
 		vars["result"] = SV{res, rs.At(0).Type()}
 		if n := rs.At(0).Name(); n != "" && n != "_" {
-			if _, clash := vars[n]; !clash {
-				vars[n] = SV{res, rs.At(0).Type()}
-			}
+			vars[n] = SV{res, rs.At(0).Type()}
 		}
 	default:
 		for i := 0; i < rs.Len(); i++ {
 			vars[fmt.Sprintf("result%d", i)] = SV{res.Fs[i], rs.At(i).Type()}
 			if n := rs.At(i).Name(); n != "" && n != "_" {
-				if _, clash := vars[n]; !clash {
-					vars[n] = SV{res.Fs[i], rs.At(i).Type()}
-				}
+				vars[n] = SV{res.Fs[i], rs.At(i).Type()}
 			}
 		}
 	}
@@ -337,7 +333,7 @@ func (vc *FuncVC) applyContract(st *State, con *Contract, name string, fn *ssa.F
 	}
 	if con.ModAll {
 		for _, h := range sortedKeys(st.g.heapSort) {
-			if h != "$alive" {
+			if h != "$alive" && h != "$brk" {
 				st.havocHeap(h)
 			}
 		}
@@ -563,14 +559,25 @@ func (vc *FuncVC) moveRegions(st *State, elem types.Type, copies []regionCopy, l
 	for _, c := range cells {
 		h := st.cur(c.heap, c.sort)
 		nh := st.g.heapConst(c.heap, c.sort)
-		for _, rc := range copies {
-			st.assume(fmt.Sprintf("(forall ((ci Int)) (! (=> (and (<= 0 ci) (< ci %s)) (= (select %s (+ %s (* ci %d) %d)) (select %s (+ %s (* ci %d) %d)))) :pattern ((select %s (+ %s (* ci %d) %d)))))",
-				rc.n, nh, rc.dst, sz, c.off, h, rc.src, sz, c.off, nh, rc.dst, sz, c.off))
+		// one definitional axiom: nh[a] = h[a - D + S] inside a copied region, h[a] elsewhere
+		body := fmt.Sprintf("(select %s ca)", h)
+		for i := len(copies) - 1; i >= 0; i-- {
+			rc := copies[i]
+			D := addOff(rc.dst, c.off)
+			S := addOff(rc.src, c.off)
+			body = fmt.Sprintf("(ite (and (<= %s ca) (< ca (+ %s %s))) (select %s (+ (- ca %s) %s)) %s)", D, D, mulC(rc.n, sz), h, D, S, body)
 		}
-		st.assume(fmt.Sprintf("(forall ((ca Int)) (! (=> (or (< ca %s) (>= ca %s)) (= (select %s ca) (select %s ca))) :pattern ((select %s ca))))", lo, hi, nh, h, nh))
+		st.assume(fmt.Sprintf("(forall ((ca Int)) (! (= (select %s ca) %s) :pattern ((select %s ca))))", nh, body, nh))
 		st.heaps[c.heap] = nh
 		st.markWritten(c.heap)
 	}
+}
+
+func mulC(t string, c int64) string {
+	if c == 1 {
+		return t
+	}
+	return fmt.Sprintf("(* %s %d)", t, c)
 }
 
 func (vc *FuncVC) appendOp(st *State, c *ssa.CallCommon, args []Val) Val {
@@ -588,15 +595,15 @@ func (vc *FuncVC) appendOp(st *State, c *ssa.CallCommon, args []Val) Val {
 	newLen := st.g.fresh("append.len", "Int")
 	st.assume(fmt.Sprintf("(= %s (+ %s %s))", newLen, ln, n))
 	fits := fmt.Sprintf("(<= %s %s)", newLen, cp)
-	np := st.alloc("append.ptr")
 	nc := st.g.fresh("append.cap", "Int")
 	st.assume(fmt.Sprintf("(>= %s %s)", nc, newLen))
+	np := st.alloc("append.ptr", fmt.Sprintf("(* %s %d)", nc, sz))
 	rp := st.g.fresh("append.rp", "Int")
 	st.assume(fmt.Sprintf("(= %s %s)", rp, ite(fits, ptr, np)))
 	rc := ite(fits, cp, nc)
 	// when n == 0 Go returns s unchanged; covered: fits is true whenever n == 0
-	dstTail := fmt.Sprintf("(+ %s (* %s %d))", rp, ln, sz)
-	vc.moveRegions(st, elem, []regionCopy{{rp, ptr, ln}, {dstTail, t.Fs[0].T, n}}, rp, fmt.Sprintf("(+ %s (* %s %d))", rp, newLen, sz))
+	dstTail := fmt.Sprintf("(+ %s %s)", rp, mulC(ln, sz))
+	vc.moveRegions(st, elem, []regionCopy{{rp, ptr, ln}, {dstTail, t.Fs[0].T, n}}, "", "")
 	return Val{K: KSlice, Fs: []Val{IntV(rp), IntV(newLen), IntV(rc)}}
 }
 
@@ -610,8 +617,7 @@ func (vc *FuncVC) copyOp(st *State, c *ssa.CallCommon, args []Val) Val {
 	}
 	n := st.g.fresh("copy.n", "Int")
 	st.assume(fmt.Sprintf("(= %s (ite (<= %s %s) %s %s))", n, d.Fs[1].T, s.Fs[1].T, d.Fs[1].T, s.Fs[1].T))
-	sz := vc.g.P.sizeof(sl.Elem())
-	vc.moveRegions(st, sl.Elem(), []regionCopy{{d.Fs[0].T, s.Fs[0].T, n}}, d.Fs[0].T, fmt.Sprintf("(+ %s (* %s %d))", d.Fs[0].T, n, sz))
+	vc.moveRegions(st, sl.Elem(), []regionCopy{{d.Fs[0].T, s.Fs[0].T, n}}, "", "")
 	return IntV(n)
 }
 
